@@ -512,6 +512,7 @@ func TestC16(t *testing.T) {
 		explore(t, rep, env, sc)
 	}
 	runRegistrySched(t, rep, env)
+	runVnet(t, rep, env)
 	if err := rep.Finish(env); err != nil {
 		t.Fatal(err)
 	}
